@@ -93,6 +93,10 @@ def run(R):
                     if isinstance(st, ast.Expr) and isinstance(st.value, ast.Call) and callee_last(st.value) in ACCESSORS \
                             and ctext(st.value.func.value, f) == 'self':
                         n += 1
+                        # (a routine that does return a value on every path may call an accessor just for its range check -- a probe; what the
+                        # rule is after is the result that was MEANT to be returned: "returns a value on every path" above covers the accessors)
+                        if f.name in ACCESSORS and all(p_.kind == 'stmt' and isinstance(p_.ast, ast.Return) and p_.ast.value is not None for p_, l_ in f.cfg.exit.pred):
+                            continue
                         c.bad(f, st, 'the result of the accessor %s() is computed and thrown away' % callee_last(st.value), kind='ast', tag='dropped:' + f.qual)
         c.ok(scr.methods['get'], None, 'no statement in screen/ANSI discards an accessor result (%d candidates)' % n, kind='ast', tag='no-dropped')
     with R.clause('D3', 'RANGE', floor=12, desc='internally computed coordinates stay inside the screen; grid reads use clamped indices') as c:
@@ -342,6 +346,17 @@ def region_skeleton(f):
     for n in iter_nodes(f.node):
         if isinstance(n, ast.Assign) and isinstance(n.value, ast.Call) and dotted(n.value.func) == 'constrain':
             cons.append((assigned_names(n)[0], tuple(norm(a) for a in n.value.args)))
+        elif isinstance(n, ast.Assign) and isinstance(n.value, ast.Call) and dotted(n.value.func) in ('min', 'max') and len(n.value.args) == 2 and assigned_names(n):
+            # the same two-sided clamp written with min / max: min(max(v, lo), hi) or max(min(v, hi), lo)
+            outer, k_ = dotted(n.value.func), n.value
+            inner = [a for a in k_.args if isinstance(a, ast.Call) and dotted(a.func) == ('max' if outer == 'min' else 'min') and len(a.args) == 2]
+            rest = [a for a in k_.args if a not in inner]
+            if len(inner) == 1 and len(rest) == 1:
+                v_ = [a for a in inner[0].args if isinstance(a, ast.Name)]
+                b_ = [a for a in inner[0].args if a not in v_[:1]]
+                if v_ and len(b_) == 1:
+                    lo, hi = (b_[0], rest[0]) if outer == 'min' else (rest[0], b_[0])
+                    cons.append((assigned_names(n)[0], (norm(v_[0]), norm(lo), norm(hi))))
     swaps = []
     for n in iter_nodes(f.node):
         if isinstance(n, ast.If) and isinstance(n.test, ast.Compare) and len(n.body) == 1 and isinstance(n.body[0], ast.Assign) \
@@ -382,6 +397,23 @@ def check_regions(c, scr):
                         return norm(ds[0].ast.value)
             return norm(it)
         ok = len(loops) == 2 and iter_text(loops[0]) == 'range(%s, %s + 1)' % (p[0], p[2]) and iter_text(loops[1]) == 'range(%s, %s + 1)' % (p[1], p[3])
+        if not loops and f.name == 'get_region':
+            # the same region taken with slices: rows self.w[rs-1:re], of each row the cells row[cs-1:ce] (0-based, end exclusive = rs..re / cs..ce inclusive)
+            sl = [x for x in ast.walk(f.node) if isinstance(x, ast.Subscript) and isinstance(x.slice, ast.Slice) and x.slice.step is None
+                  and x.slice.lower is not None and x.slice.upper is not None]
+            rows_ = [x for x in sl if norm(x.value) == 'self.w']
+            cells_ = [x for x in sl if isinstance(x.value, ast.Name)]
+
+            def is_lin(e, name, k):
+                l_ = lin(e, f)
+                return l_ is not None and l_ == Lin(k, {name: 1})
+            if len(rows_) == 1 and len(cells_) == 1:
+                ok = is_lin(rows_[0].slice.lower, p[0], -1) and is_lin(rows_[0].slice.upper, p[2], 0) and \
+                    is_lin(cells_[0].slice.lower, p[1], -1) and is_lin(cells_[0].slice.upper, p[3], 0)
+                c.check(ok, f, rows_[0], '%s visits rows rs..re and columns cs..ce inclusive' % f.name,
+                        witness='%s / %s' % (norm(rows_[0]), norm(cells_[0])), kind='alg', tag='loops:' + f.name)
+                # the rest of this routine's obligations are written for the cell-by-cell form
+                raise AnalysisError('get_region: the region is taken with slices; what is done with the cells (joined into one text per row, in order) is not decided for that form')
         c.check(ok, f, loops[0] if loops else None, '%s visits rows rs..re and columns cs..ce inclusive' % f.name, witness=str([norm(l.iter) for l in loops]), kind='alg', tag='loops:' + f.name)
     def loopvars(f):
         ls = [n for n in iter_nodes(f.node) if isinstance(n, ast.For)]
